@@ -37,14 +37,14 @@ Proof.
   - subst. lia.
   - specialize (IH H). lia.
 Qed.
-Lemma fix_fb_child_size : forall d ib n, node_size (fix_fb_child d ib n) = node_size n.
+Lemma fix_fb_child_size : forall fixn d ib n, node_size (fix_fb_child fixn d ib n) = node_size n.
 Proof.
-  intros d ib n. destruct n as [ns nm a k| |]; cbn [fix_fb_child]; try reflexivity.
+  intros fixn d ib n. destruct n as [ns nm a k| |]; cbn [fix_fb_child]; try reflexivity.
   destruct d; [|reflexivity]. destruct (get_base_attr a); reflexivity.
 Qed.
-Lemma fix_root_size : forall fixb ib tg b h top, nodes_size (fix_root fixb ib tg b h top) = nodes_size top.
+Lemma fix_root_size : forall fixb fixn fixc pb ib tg b h top, nodes_size (fix_root fixb fixn fixc pb ib tg b h top) = nodes_size top.
 Proof.
-  intros fixb ib tg b h top. induction top as [|n top IH]; [reflexivity|].
+  intros fixb fixn fixc pb ib tg b h top. induction top as [|n top IH]; [reflexivity|].
   destruct n as [ns nm a k| |]; cbn [fix_root]; rewrite !nodes_size_cons; try (rewrite IH; reflexivity).
   reflexivity.
 Qed.
@@ -69,7 +69,7 @@ Lemma lookup_size : forall fs top0 t top, lookup fs t = Some (FDoc top) -> (node
 Proof.
   induction fs as [|[q f] fs IH]; intros top0 t top H; cbn [lookup] in H; [discriminate|].
   unfold max_size. cbn [fold_right snd]. fold (max_size fs top0). destruct (path_eqb t q).
-  - inversion H; subst. cbn [file_size]. lia.
+  - inversion H; subst. cbn [file_size snd]. lia.
   - specialize (IH top0 t top H). lia.
 Qed.
 Lemma max_size_top : forall fs top0, (nodes_size top0 <= max_size fs top0)%nat.
@@ -118,9 +118,17 @@ Section Fuel.
 Variable fs : fsys.
 Variable docuri : path.
 Variable fixb : bool.
+Variable fixn : bool.
+Variable fixc : bool.
+
+Lemma fetch_lookup : forall incbase href f, fetch fs fixn incbase href = Some f -> lookup fs (resolve incbase href) = Some f.
+Proof.
+  intros incbase href f H. unfold fetch in H. destruct fixn; [exact H|].
+  destruct (os_walk fs [] (dir incbase ++ href)); [|discriminate]. destruct (path_eqb _ _); [exact H|discriminate].
+Qed.
 
 Lemma inc_resolve_repl : forall hist base at_ kids nodes h' e,
-  inc_resolve fs docuri fixb hist base at_ kids = (IR_repl nodes h', e) ->
+  inc_resolve fs docuri fixb fixn fixc hist base at_ kids = (IR_repl nodes h', e) ->
   (h' = hist /\ forall c, In c nodes -> (node_size c <= S (nodes_size kids))%nat) \/
   (exists target top, h' = target :: hist /\ path_mem target hist = false /\
                       lookup fs target = Some (FDoc top) /\
@@ -136,7 +144,7 @@ Proof.
   assert (FB : forall e0 nodes0 h0 e1,
              match fb with
              | Some (fat, fkids) =>
-               (IR_repl (map (fix_fb_child (negb (path_eqb base (elem_base incbase fat))) (get_base_attr at_)) fkids) hist,
+               (IR_repl (map (fix_fb_child fixn (negb (path_eqb base (elem_base incbase fat))) (get_base_attr at_)) fkids) hist,
                 e0 ++ [E_IncludeFailedResourceError])
              | None => (IR_fail, e0 ++ [E_IncludeFailedResourceError; E_IncludeFailedNoFallback])
              end = (IR_repl nodes0 h0, e1) ->
@@ -148,17 +156,18 @@ Proof.
   destruct (str_eqb parse s_xml).
   - destruct (path_mem target hist) eqn:PM; [left; eapply FB; exact H|].
     destruct (path_eqb target docuri); [left; eapply FB; exact H|].
-    destruct (lookup fs target) as [[top|s]|] eqn:LK; try (left; eapply FB; exact H).
+    destruct (fetch fs fixn incbase (split_slash href)) as [[top|s|]|] eqn:LK; try (left; eapply FB; exact H).
+    apply fetch_lookup in LK. fold target in LK.
     inversion H; subst. right. exists target, top. repeat split; try assumption.
     intros c Hc. apply in_nodes_size in Hc. rewrite fix_root_size in Hc. exact Hc.
   - destruct (str_eqb parse s_text); [|discriminate].
     destruct (negb (encoding_ok (get_attr NS_NONE s_encoding at_))); [left; eapply FB; exact H|].
-    destruct (lookup fs target) as [[top|s]|] eqn:LK; try (left; eapply FB; exact H).
+    destruct (fetch fs fixn incbase (split_slash href)) as [[top|s|]|] eqn:LK; try (left; eapply FB; exact H).
     inversion H; subst. left. split; [reflexivity|]. intros c [Hc|[]]. subst c. cbn [node_size]. lia.
 Qed.
 
 Lemma inc_resolve_no_fuel : forall hist base at_ kids r e,
-  inc_resolve fs docuri fixb hist base at_ kids = (r, e) -> ~ In E_Fuel e.
+  inc_resolve fs docuri fixb fixn fixc hist base at_ kids = (r, e) -> ~ In E_Fuel e.
 Proof.
   intros hist base at_ kids r e H. unfold inc_resolve in H.
   destruct (scan_fallback kids None) as [fb| |];
@@ -168,7 +177,7 @@ Proof.
   assert (FB : forall e0 r0 e1, ~ In E_Fuel e0 ->
              match fb with
              | Some (fat, fkids) =>
-               (IR_repl (map (fix_fb_child (negb (path_eqb base (elem_base (elem_base base at_) fat))) (get_base_attr at_)) fkids) hist,
+               (IR_repl (map (fix_fb_child fixn (negb (path_eqb base (elem_base (elem_base base at_) fat))) (get_base_attr at_)) fkids) hist,
                 e0 ++ [E_IncludeFailedResourceError])
              | None => (IR_fail, e0 ++ [E_IncludeFailedResourceError; E_IncludeFailedNoFallback])
              end = (r0, e1) -> ~ In E_Fuel e1).
@@ -181,11 +190,11 @@ Proof.
   destruct (str_eqb _ s_xml).
   - destruct (path_mem _ hist); [eapply FB; [exact N1|exact H]|].
     destruct (path_eqb _ docuri); [eapply FB; [exact N2|exact H]|].
-    destruct (lookup fs _) as [[top|s]|]; try (eapply FB; [exact N0|exact H]).
+    destruct (fetch fs fixn _ _) as [[top|s|]|]; try (eapply FB; [exact N0|exact H]).
     inversion H; subst. exact N0.
   - destruct (str_eqb _ s_text); [|inversion H; subst; cbn [In]; intuition discriminate].
     destruct (negb (encoding_ok _)); [eapply FB; [exact N3|exact H]|].
-    destruct (lookup fs _) as [[top|s]|]; try (eapply FB; [exact N3|exact H]).
+    destruct (fetch fs fixn _ _) as [[top|s|]|]; try (eapply FB; [exact N3|exact H]).
     inversion H; subst. exact N0.
 Qed.
 
@@ -204,21 +213,21 @@ Let M := max_size fs top0.
 
 Lemma walk_fuel_ok : forall fuel atdoc hist base n,
   (node_size n <= M)%nat -> (kcount fs hist * (M + 1) + node_size n <= fuel)%nat ->
-  ~ In E_Fuel (snd (walk fs docuri fixb fuel atdoc hist base n)).
+  ~ In E_Fuel (snd (walk fs docuri fixb fixn fixc fuel atdoc hist base n)).
 Proof.
   induction fuel as [|f IH]; intros atdoc hist base n HM HF.
-  - pose proof (node_size_pos n). lia.
+  - destruct n as [ns nm at_ kids|s|s]; cbn [walk snd]; [rewrite node_size_elem in HF; lia|intros []|intros []].
   - destruct n as [ns nm at_ kids|s|s]; cbn [walk]; try (intros []).
     destruct (is_include ns nm).
-    + destruct (inc_resolve fs docuri fixb hist base at_ kids) as [[|nodes h'] e] eqn:IR.
+    + destruct (inc_resolve fs docuri fixb fixn fixc hist base at_ kids) as [[|nodes h'] e] eqn:IR.
       * cbn [snd]. eapply inc_resolve_no_fuel. exact IR.
       * pose proof (inc_resolve_no_fuel _ _ _ _ _ _ IR) as NE.
         destruct (atdoc && negb (doc_kids_ok nodes)).
         { cbn [snd]. intro HI. apply in_app_or in HI. destruct HI as [HI|HI]; [exact (NE HI)|].
           cbn [In] in HI. intuition discriminate. }
-        destruct (walk_list (walk fs docuri fixb f atdoc h' base) nodes) as [r e2] eqn:WL. cbn [snd].
+        destruct (walk_list (walk fs docuri fixb fixn fixc f atdoc h' base) nodes) as [r e2] eqn:WL. cbn [snd].
         intro HI. apply in_app_or in HI. destruct HI as [HI|HI]; [exact (NE HI)|].
-        assert (W : ~ In E_Fuel (snd (walk_list (walk fs docuri fixb f atdoc h' base) nodes))).
+        assert (W : ~ In E_Fuel (snd (walk_list (walk fs docuri fixb fixn fixc f atdoc h' base) nodes))).
         { apply walk_list_no_fuel. intros c Hc. rewrite node_size_elem in HM, HF.
           apply inc_resolve_repl in IR. destruct IR as [[Eh Hs]|[target [top [Eh [PM [LK Hs]]]]]].
           - subst h'. specialize (Hs c Hc). apply IH; lia.
@@ -227,8 +236,8 @@ Proof.
             apply IH; [lia|]. nia. }
         rewrite WL in W. exact (W HI).
     + destruct (is_fallback ns nm); [cbn [snd In]; intuition discriminate|].
-      destruct (walk_list (walk fs docuri fixb f false hist (elem_base base at_)) kids) as [ks e] eqn:WL. cbn [snd].
-      assert (W : ~ In E_Fuel (snd (walk_list (walk fs docuri fixb f false hist (elem_base base at_)) kids))).
+      destruct (walk_list (walk fs docuri fixb fixn fixc f false hist (elem_base base at_)) kids) as [ks e] eqn:WL. cbn [snd].
+      assert (W : ~ In E_Fuel (snd (walk_list (walk fs docuri fixb fixn fixc f false hist (elem_base base at_)) kids))).
       { apply walk_list_no_fuel. intros c Hc. rewrite node_size_elem in HM, HF. apply in_nodes_size in Hc.
         apply IH; lia. }
       rewrite WL in W. exact W.
@@ -254,9 +263,9 @@ Proof.
   destruct n; try (right; eapply IH; exact H). inversion H; subst. left. reflexivity.
 Qed.
 
-Lemma docproc_no_fuel : forall fs fixb uri top, ~ In E_Fuel (snd (xi_docproc fs fixb uri top)).
+Lemma docproc_no_fuel : forall fs fixb fixn fixc uri top, ~ In E_Fuel (snd (xi_docproc fs fixb fixn fixc uri top)).
 Proof.
-  intros fs fixb uri top HI. unfold xi_docproc in HI.
+  intros fs fixb fixn fixc uri top HI. unfold xi_docproc in HI.
   destruct (split_root [] top) as [[[pre root] post]|] eqn:SR; [|destruct HI].
   apply finish_sub in HI. apply split_root_in in SR. apply in_nodes_size in SR.
   pose proof (max_size_top fs top) as MT. pose proof (kcount_le fs []) as K0.
@@ -266,24 +275,24 @@ Proof.
   unfold root_step in HI. destruct root as [ns nm at_ kids|s|s]; try (destruct HI).
   destruct (is_include ns nm).
   - cbn [fst snd] in HI.
-    destruct (inc_resolve fs uri fixb [] uri at_ kids) as [[|nodes h'] e] eqn:IR.
-    + cbn [snd app] in HI. exact (inc_resolve_no_fuel _ _ _ _ _ _ _ _ _ IR HI).
-    + pose proof (inc_resolve_no_fuel _ _ _ _ _ _ _ _ _ IR) as NE.
+    destruct (inc_resolve fs uri fixb fixn fixc [] uri at_ kids) as [[|nodes h'] e] eqn:IR.
+    + cbn [snd app] in HI. exact (inc_resolve_no_fuel _ _ _ _ _ _ _ _ _ _ _ IR HI).
+    + pose proof (inc_resolve_no_fuel _ _ _ _ _ _ _ _ _ _ _ IR) as NE.
       destruct (doc_kids_ok nodes).
-      * destruct (walk_list (walk fs uri fixb (enough_fuel fs top) true h' uri) nodes) as [r e2] eqn:WL.
+      * destruct (walk_list (walk fs uri fixb fixn fixc (enough_fuel fs top) true h' uri) nodes) as [r e2] eqn:WL.
         cbn [snd app] in HI. apply in_app_or in HI. destruct HI as [HI|HI]; [exact (NE HI)|].
-        assert (W : ~ In E_Fuel (snd (walk_list (walk fs uri fixb (enough_fuel fs top) true h' uri) nodes))).
+        assert (W : ~ In E_Fuel (snd (walk_list (walk fs uri fixb fixn fixc (enough_fuel fs top) true h' uri) nodes))).
         { apply walk_list_no_fuel. intros c Hc. rewrite node_size_elem in SR.
           apply inc_resolve_repl in IR. destruct IR as [[Eh Hs]|[target [t0 [Eh [PM [LK Hs]]]]]].
-          - subst h'. specialize (Hs c Hc). apply (walk_fuel_ok fs uri fixb top); fold M; [lia|]. apply EF; lia.
+          - subst h'. specialize (Hs c Hc). apply (walk_fuel_ok fs uri fixb fixn fixc top); fold M; [lia|]. apply EF; lia.
           - subst h'. specialize (Hs c Hc). pose proof (lookup_size fs top _ _ LK) as LS. fold M in LS.
             pose proof (kcount_le fs [target]).
-            apply (walk_fuel_ok fs uri fixb top); fold M; [lia|]. apply EF; lia. }
+            apply (walk_fuel_ok fs uri fixb fixn fixc top); fold M; [lia|]. apply EF; lia. }
         rewrite WL in W. exact (W HI).
       * cbn [snd app] in HI. apply in_app_or in HI. destruct HI as [HI|HI]; [exact (NE HI)|].
         cbn [In] in HI. intuition discriminate.
-  - destruct (walk fs uri fixb (enough_fuel fs top) true [] uri (Elem ns nm at_ kids)) as [r e] eqn:W. cbn [snd] in HI.
-    assert (WN : ~ In E_Fuel (snd (walk fs uri fixb (enough_fuel fs top) true [] uri (Elem ns nm at_ kids)))).
-    { apply (walk_fuel_ok fs uri fixb top); fold M; [lia|]. apply EF; lia. }
+  - destruct (walk fs uri fixb fixn fixc (enough_fuel fs top) true [] uri (Elem ns nm at_ kids)) as [r e] eqn:W. cbn [snd] in HI.
+    assert (WN : ~ In E_Fuel (snd (walk fs uri fixb fixn fixc (enough_fuel fs top) true [] uri (Elem ns nm at_ kids)))).
+    { apply (walk_fuel_ok fs uri fixb fixn fixc top); fold M; [lia|]. apply EF; lia. }
     rewrite W in WN. exact (WN HI).
 Qed.
